@@ -52,4 +52,13 @@ def set_cashLetterControl (s : RState) (c : Vals) : RState :=
 /-- `currentBundle.Validate()` -/
 def validateCurBundle (s : RState) : Option String := s.curBundle.bind bundleValidate
 
+/-- `for _, w := range ws { ... }` threading an offset; the body either returns (`inl`) or gives the next offset (`inr`) -/
+def forWidths (ws : List Nat) (st : Nat) (f : Nat → Nat → Sum Nat Nat) : Sum Nat Nat :=
+  match ws with
+  | [] => .inr st
+  | w :: r =>
+    match f w st with
+    | .inl x => .inl x
+    | .inr st' => forWidths r st' f
+
 end Icl.ReaderRT
